@@ -109,6 +109,63 @@ theorem c17_fits_accepted_sendfile (g : Cfg) (s : S) (off len : Nat) (ks : List 
     · rfl
     · rw [sendfileLoop_no_fail g ks hk]; rfl
 
+/-! ### Sendfile while dup(2) fails (the assumption behind "fits ⇒ accepted" for Sendfile, made explicit) -/
+
+/-- **C17 (accounting and bound survive a failing dup).** `sendfileNoDupOp` is a stutter or an op of the alphabet
+    (`sendfileNoDup_step`), so the state after it is reachable: counter = unsent held bytes, counter ≤ bound. -/
+theorem c17_inv_nodup (g : Cfg) (s : S) (off len : Nat) (ks : List KAns) (hr : Reach g s) :
+    let t := (sendfileNoDupOp g s off len ks).1
+    (t.closed = false → t.left = unsent t.wl) ∧ (g.maxWB > 0 → t.left ≤ g.maxWB) := by
+  intro t
+  have h := (reach_inv (reach_sendfileNoDup hr off len ks)).1
+  exact ⟨h.acct, h.bound⟩
+
+theorem c17_sendfile_nodup_no_overflow (g : Cfg) (s : S) (off len : Nat) (ks : List KAns) :
+    (sendfileNoDupOp g s off len ks).2.err ≠ .overflow := by
+  unfold sendfileNoDupOp
+  split
+  · simp
+  · exact c17_sendfile_no_overflow g s off len (denyDup ks)
+
+/-- **C17 (fits ⇒ accepted, Sendfile, PARTIAL: dup(2) fails).** `c17_fits_accepted_sendfile` assumes that the
+    descriptor can be duplicated. When it can not, a `Sendfile` that fits (it always does: file ranges are not held
+    bytes) may fail — but never with the overflow error, and it consumes nothing of the budget: if the connection is
+    still open afterwards the queue and the counter are exactly as before (the range was either transmitted whole,
+    `(sendRange, nil)`, or nothing of it was queued, `(0, err)`); otherwise the connection is closed. -/
+theorem c17_fits_sendfile_nodup_partial (g : Cfg) (s : S) (off len : Nat) (ks : List KAns) (hr : Reach g s)
+    (hk : KWF ks) :
+    let r := sendfileNoDupOp g s off len ks
+    r.2.err ≠ .overflow ∧ (r.2.err = .none → r.2.n = sendRange g off len) ∧ (r.2.err ≠ .none → r.2.n = 0) ∧
+    (r.1.closed = false → r.1.wl = s.wl ∧ r.1.left = s.left) := by
+  intro r
+  have h1 := c17_sendfile_nodup_no_overflow g s off len ks
+  obtain ⟨hok, herr⟩ := c01_sendfile_nodup g s off len ks hr hk
+  have hleft : r.1.closed = false → r.1.wl = s.wl → r.1.left = s.left := by
+    intro ho hw
+    have hs := (reach_inv hr).1
+    have ht := (reach_inv (reach_sendfileNoDup hr off len ks)).1
+    have hso : s.closed = false := by
+      cases hc : s.closed
+      · rfl
+      · -- a closed connection stays closed
+        have : r.1.closed = true := by
+          show (sendfileNoDupOp g s off len ks).1.closed = true
+          unfold sendfileNoDupOp
+          split
+          · exact hc
+          · exact closed_step g s (.sendfile off len (denyDup ks)) hc
+        rw [this] at ho; exact absurd ho (by simp)
+    have a1 : r.1.left = unsent r.1.wl := ht.acct ho
+    rw [a1, hw, ← hs.acct hso]
+  refine ⟨h1, fun he => (hok he).1, fun he => (herr he).1, fun ho => ?_⟩
+  by_cases he : r.2.err = .none
+  · obtain ⟨_, _, hw, _⟩ := hok he
+    exact ⟨hw, hleft ho hw⟩
+  · rcases (herr he).2 with h | h
+    · have hw : r.1.wl = s.wl := by rw [h]
+      exact ⟨hw, hleft ho hw⟩
+    · rw [h.1] at ho; exact absurd ho (by simp)
+
 /-- **C17 (full budget after drain).** With the queue empty the whole bound is available again: a call
     fits iff it fits the bound alone, and then it is accepted. -/
 theorem c17_full_budget_after_drain (g : Cfg) (ops : List Op) (b : Bytes) (k : KAns) :
@@ -211,6 +268,20 @@ theorem c17_overflow_only_if_writev (g : Cfg) (s : S) (bs : List Bytes) (k : KAn
 
 /-- bound 5 -/
 def g5 : Cfg := ⟨.lt, 5, 10, fun i => UInt8.ofNat i⟩
+
+/-- bound 5, dup(2) fails: behind a backlog of 2 held bytes the Sendfile fails with `(0, io)`, not with overflow, and
+    counter and queue stay as they were; on an empty queue a range the kernel takes whole is accepted, a refused one
+    closes the conn -/
+example :
+    let s1 := run g5 init [.register, .write [7, 8, 9] [.wrote 1]]
+    let a := sendfileNoDupOp g5 s1 0 0 [.wrote 10]
+    let s0 := run g5 init [.register]
+    let b := sendfileNoDupOp g5 s0 0 0 [.wrote 10]
+    let c := sendfileNoDupOp g5 s0 0 0 [.wrote 4, .eagain]
+    s1.left = 2 ∧ a.2 = ⟨0, .io⟩ ∧ a.1.closed = false ∧ a.1.left = 2 ∧ a.1.wl.length = 1 ∧
+    b.2 = ⟨10, .none⟩ ∧ b.1.closed = false ∧ b.1.left = 0 ∧ b.1.wl.length = 0 ∧
+    c.2 = ⟨0, .io⟩ ∧ c.1.closed = true := by
+  decide
 
 /-- fill / drain / fill: the counter follows the backlog and comes back to 0 -/
 example :
